@@ -121,14 +121,18 @@ def build(repo, targets):
                 if os.path.islink(link) or os.path.exists(link):
                     os.unlink(link)
                 os.symlink(os.path.basename(exe), link)
-        # keep at most 3 tree hashes (most recently used)
+        # keep the 3 most recently used tree hashes, and any other used within the last 90 minutes
         with open(os.path.join(bdir, ".used"), "w") as fh:
             fh.write("x")
         dirs = [d for d in os.listdir(root) if os.path.isdir(os.path.join(root, d))]
         dirs.sort(key=lambda d: os.path.getmtime(os.path.join(root, d, ".used"))
                   if os.path.exists(os.path.join(root, d, ".used")) else 0, reverse=True)
+        # (a tree that was used within the last 90 minutes may belong to a check that is still running)
+        import time
         for d in dirs[3:]:
-            shutil.rmtree(os.path.join(root, d), ignore_errors=True)
+            u = os.path.join(root, d, ".used")
+            if not os.path.exists(u) or time.time() - os.path.getmtime(u) > 5400:
+                shutil.rmtree(os.path.join(root, d), ignore_errors=True)
     finally:
         fcntl.flock(lock, fcntl.LOCK_UN)
         lock.close()
